@@ -163,6 +163,7 @@ type built struct {
 	expect  map[int]string // oracle: object number -> expected token
 	newest  map[int]action // oracle: object number -> newest action of the logical history
 	maxNum  int
+	inflate []writers.InflatePair // every zlib stream the writer produced
 	special map[int]bool // container numbers (objstm / xref stream / length holders)
 	hot     []int        // object numbers touched by an injected fault
 }
@@ -195,8 +196,10 @@ func tok(a action) string {
 	return fmt.Sprintf("i%d", a.ID)
 }
 
-func build(h history) built {
+func build(h history) (bp built) {
 	p := writers.NewPDF(h.EOL)
+	p.Tr = &writers.Trace{}
+	defer func() { bp.inflate = p.Tr.Inflate }()
 	b := built{expect: map[int]string{}, special: map[int]bool{}, newest: map[int]action{}}
 	next := h.N + 1 // fresh object numbers for containers
 	prev := int64(-1)
@@ -258,9 +261,17 @@ func build(h history) built {
 				lenRef = next
 				next++
 			}
-			off := p.ObjStm(stm, ms, rev.Flate, lenRef)
+			var hook func(*writers.RawObjStm)
+			stmDesc := "s" + strings.Join(desc, "+")
+			if ri == len(h.Revs)-1 && strings.HasPrefix(h.Fault, "hdr-") {
+				hook, stmDesc = headerFault(h.Fault, desc)
+				for i := len(comp) - 1; i >= 0; i-- {
+					b.hot = append(b.hot, comp[i])
+				}
+			}
+			off := p.ObjStmRaw(stm, ms, rev.Flate, lenRef, hook)
 			set(stm, writers.XEntry{Type: 1, F1: off, F2: 0})
-			b.objs = append(b.objs, fmt.Sprintf("%d:%d:s%s", off, stm, strings.Join(desc, "+")))
+			b.objs = append(b.objs, fmt.Sprintf("%d:%d:%s", off, stm, stmDesc))
 			b.expect[stm] = "S"
 			b.special[stm] = true
 			if lenRef > 0 {
@@ -274,7 +285,7 @@ func build(h history) built {
 				b.special[lenRef] = true
 			}
 		}
-		if ri == len(h.Revs)-1 {
+		if ri == len(h.Revs)-1 && !strings.HasPrefix(h.Fault, "hdr-") {
 			b.hot = applyFault(h.Fault, entries, comp)
 		}
 		var off int64
@@ -326,6 +337,41 @@ func build(h history) built {
 		patch(8888888888, b.start)
 	}
 	return b
+}
+
+// headerFault damages the header of the newest revision's object stream (the pairs
+// "number offset" in front of the members, or /N and /First that delimit them) and says
+// how the model is to see the stream: a header that core.(*ObjectStream).parseHeader
+// refuses makes every member unreachable (the stream is then described as a plain
+// stream), a shorter /N hides the last members, exchanged offsets exchange the bodies
+// under the numbers.
+func headerFault(fault string, desc []string) (func(*writers.RawObjStm), string) {
+	plain := "s" + strings.Join(desc, "+")
+	last := len(desc) - 1
+	switch fault {
+	case "hdr-offset-outside":
+		return func(r *writers.RawObjStm) { r.Offsets[last] = "99999999" }, "t"
+	case "hdr-offset-negative":
+		return func(r *writers.RawObjStm) { r.Offsets[last] = "-1" }, "t"
+	case "hdr-number-not-int":
+		return func(r *writers.RawObjStm) { r.Nums[last] = "/X" }, "t"
+	case "hdr-n-too-big":
+		return func(r *writers.RawObjStm) { r.NText = fmt.Sprint(len(r.Nums) + 2) }, "t"
+	case "hdr-first-beyond":
+		return func(r *writers.RawObjStm) { r.FirstText = "99999999" }, "t"
+	case "hdr-n-smaller":
+		return func(r *writers.RawObjStm) { r.NText = fmt.Sprint(len(r.Nums) - 1) }, "s" + strings.Join(desc[:last], "+")
+	case "hdr-offsets-swapped":
+		if len(desc) < 2 {
+			return nil, plain
+		}
+		// pair i keeps its number and gets the body of the other member
+		d := append([]string(nil), desc...)
+		a, b := strings.SplitN(d[0], ".", 2), strings.SplitN(d[1], ".", 2)
+		d[0], d[1] = a[0]+"."+b[1], b[0]+"."+a[1]
+		return func(r *writers.RawObjStm) { r.Offsets[0], r.Offsets[1] = r.Offsets[1], r.Offsets[0] }, "s" + strings.Join(d, "+")
+	}
+	return nil, plain
 }
 
 // applyFault makes the newest cross-reference section inconsistent with the file in
@@ -609,7 +655,9 @@ func runCase(c *hx.Ctx, k kase, tag string) {
 	var modelOps []string  // the shallow lookups (GetObject / Resolve) and cache clears, for the model
 	var modelRes []string
 	alone := map[string]string{} // op -> full rendering when it is the only lookup on a fresh reader
-	var xref string
+	var xref, xrefFull string
+	var byteNums []int     // the GetObject / Resolve lookups, for the byte-level model
+	var byteRes []string
 	opened := false
 	openErr := ""
 	if !c.Guard("C04", k, 10, func() {
@@ -621,6 +669,7 @@ func runCase(c *hx.Ctx, k kase, tag string) {
 		opened = true
 		defer s.rd.Close()
 		xref = dumpXref(s.rd.XRefTable())
+		xrefFull = dumpXrefFull(s.rd.XRefTable())
 		for _, op := range k.Ops {
 			kind, _ := parseOp(op)
 			obj, err := s.do(op)
@@ -639,6 +688,8 @@ func runCase(c *hx.Ctx, k kase, tag string) {
 				_, n := parseOp(op)
 				modelOps = append(modelOps, fmt.Sprintf("g%d", n))
 				modelRes = append(modelRes, classify(obj, err))
+				byteNums = append(byteNums, n)
+				byteRes = append(byteRes, renderLookup(obj, err))
 			}
 		}
 		for _, op := range k.Ops {
@@ -668,6 +719,7 @@ func runCase(c *hx.Ctx, k kase, tag string) {
 		return
 	}
 	c.Op(b.opLine(modelOps), fmt.Sprintf("xref=[%s] res=[%s]", xref, strings.Join(modelRes, ",")))
+	fileOp(c, b.data, inflateTable(append(b.inflate, scanInflate(b.data)...)), xrefFull, byteNums, byteRes)
 	nontrivial := false
 	i := 0
 	for _, op := range k.Ops {
@@ -988,6 +1040,15 @@ func entryOps(c *hx.Ctx) {
 		be(f1, w[1])
 		be(f2, w[2])
 		conforming := true
+		if r.Chance(1, 10) {
+			// an 8-byte field with the top bit set: readBigEndianInt shifts it into an int64
+			conforming = false
+			w = []int{1, 8, hx.Pick(r, []int{2, 8})}
+			data = data[:0]
+			be(int64(kind), 1)
+			be(int64(r.U64()|1<<63), 8)
+			be(int64(r.U64()), w[2])
+		}
 		if r.Chance(1, 5) {
 			conforming = false
 			if len(data) > 0 && r.Bool() {
@@ -1014,6 +1075,7 @@ func entryOps(c *hx.Ctx) {
 
 func Run(c *hx.Ctx) {
 	entryOps(c)
+	byteOps(c)
 	c.Rep.Rule = "revision histories (add/replace/delete per object per revision; values integers, dictionaries and arrays that hold references to other objects, nested containers, dangling references; classic or stream xref per revision; object-stream membership; indirect /Length; W widths; predictors) rendered by the harness PDF writer, then lookup sequences over GetObject, Resolve, ResolveDeep (of a reference and of a looked-up container) and the resolver package's deep lookups, with repeats and ClearCache, every answer also compared with the same lookup alone on a fresh reader; exhaustive for n=2 objects x r<=2 (thorough: r<=3) revisions x both xref kinds; non-trivial = at least one lookup expected to succeed; distinct by (history, ops)"
 	exhaustive(c, 2, 1)
 	exhaustive(c, 2, 2)
@@ -1026,7 +1088,8 @@ func Run(c *hx.Ctx) {
 		r := c.Rng.Fork(uint64(i))
 		h := genHistory(r)
 		if r.Chance(1, 5) {
-			h.Fault = hx.Pick(r, []string{"prev-cycle", "prev-self", "wrong-header", "idx-out-of-range", "idx-at-len", "idx-swapped", "stm-not-objstm", "stm-in-stm", "stm-missing"})
+			h.Fault = hx.Pick(r, []string{"prev-cycle", "prev-self", "wrong-header", "idx-out-of-range", "idx-at-len", "idx-swapped", "stm-not-objstm", "stm-in-stm", "stm-missing",
+				"hdr-offset-outside", "hdr-offset-negative", "hdr-number-not-int", "hdr-n-too-big", "hdr-first-beyond", "hdr-n-smaller", "hdr-offsets-swapped"})
 			c.Count("fault=" + h.Fault)
 		}
 		if h.Fault != "" && !strings.HasPrefix(h.Fault, "prev-") {
@@ -1045,6 +1108,12 @@ func Run(c *hx.Ctx) {
 		k := kase{Hist: h, Ops: genOps(r, b.maxNum)}
 		for _, n := range b.hot {
 			k.Ops = append(k.Ops, fmt.Sprintf("g%d", n))
+		}
+		if strings.HasPrefix(h.Fault, "hdr-") {
+			// the same members again: the first answer must also be the later one
+			for _, n := range b.hot {
+				k.Ops = append(k.Ops, fmt.Sprintf("g%d", n))
+			}
 		}
 		runCase(c, k, "r")
 		c.Count(fmt.Sprintf("revisions=%d", len(h.Revs)))
